@@ -27,7 +27,7 @@ SHARDS = {"quick": 6, "thorough": 16}
 TIMEOUT = {"quick": 1200, "thorough": 3400}
 OP = "fault"
 RULE = (
-    "fault enumeration: for each generated project and each multi-file operation (sync with 2-3 targets in mixed "
+    "write faults also with the condition persisting (later opens truncate, later writes fail); fault enumeration: for each generated project and each multi-file operation (sync with 2-3 targets in mixed "
     "pre-states, sync_properties, gen) a dry run measures the n write-mode opens and m emitter calls; then EVERY fault "
     "point is injected on a fresh copy of the project: conversion step j in 0..m-1, and for each write k in 0..n-1 the "
     "three positions {before open, after open before first write, mid-write} each as I/O error (in-process) and as "
